@@ -14,6 +14,10 @@ use std::collections::{BTreeSet, HashSet};
 #[derive(Clone, Debug, PartialEq, Serialize, Deserialize)]
 pub struct C05Case {
     pub issue: IssueSpec,
+    /// an earlier call made on the SAME issuer instance (it may fail: non-object claims, reserved
+    /// name, bad path); the checked issuance must be unaffected by it
+    #[serde(default)]
+    pub prelude: Option<IssueSpec>,
 }
 
 fn fail(sig: &str, msg: String, issued: &str) -> Failure {
@@ -133,7 +137,20 @@ pub fn check(case: &C05Case, st: &mut Stats) -> Verdict {
         return Err(Failure::new("harness:bad-case", "claims not an object"));
     }
     let marked = mark(&spec.claims, &spec.strat);
-    let out = sut::issue(spec);
+    let out = match &case.prelude {
+        None => sut::issue(spec),
+        Some(pre) => {
+            st.label("with_prelude_call_on_same_issuer");
+            st.sub(1);
+            let mut issuer = sut::new_issuer(spec.alg, crate::keys::KeyId::Primary);
+            let first = sut::issue_with(&mut issuer, &IssueSpec { alg: spec.alg, ..pre.clone() });
+            st.label(&format!("prelude={}", first.kind()));
+            if let Out::Panic(p) = first {
+                return Err(Failure::new(panic_sig("issue_sd_jwt(prelude)", &p), format!("issue_sd_jwt panicked on the prelude call: {}", p)));
+            }
+            sut::issue_with(&mut issuer, spec)
+        }
+    };
     match marked {
         Err(MarkErr::NoDollar(p)) => {
             st.label("path_without_dollar");
